@@ -613,6 +613,7 @@ func (x *e2Ctx) callOps(cl *ssa.Call) []*e2Node {
 				}
 			}
 			ns := sub.walk(sf.Blocks[0], nil)
+			sub.resolveLocals(ns)
 			x.undec = append(x.undec, sub.undec...)
 			// drop the callee's trailing ret
 			var out []*e2Node
@@ -623,10 +624,55 @@ func (x *e2Ctx) callOps(cl *ssa.Call) []*e2Node {
 				out = append(out, n)
 			}
 			_ = k
+			if !x.enc {
+				x.bindReturns(out, cl)
+			}
 			return out
 		}
 	}
 	return nil
+}
+
+// bindReturns: slots of an inlined decoder helper whose value leaves the helper through its k-th result
+// ("return#k") continue in the caller from that result of the call
+func (x *e2Ctx) bindReturns(ns []*e2Node, cl *ssa.Call) {
+	for _, n := range ns {
+		switch n.kind {
+		case "loop":
+			x.bindReturns(n.a, cl)
+		case "alt":
+			x.bindReturns(n.a, cl)
+			x.bindReturns(n.b, cl)
+		case "slot":
+			for iter := 0; iter < 4 && strings.Contains(n.f, "return#"); iter++ {
+				i := strings.Index(n.f, "return#")
+				j := i + len("return#")
+				k := 0
+				for j < len(n.f) && n.f[j] >= '0' && n.f[j] <= '9' {
+					k = k*10 + int(n.f[j]-'0')
+					j++
+				}
+				var v ssa.Value
+				if cl.Call.Signature().Results().Len() == 1 {
+					v = cl
+				} else if ex := extractOf(cl, k); ex != nil {
+					v = ex
+				}
+				d, xf := "_", ""
+				if v != nil {
+					d, xf = x.dstOf(v)
+				}
+				n.f = n.f[:i] + d + n.f[j:]
+				if xf != "" {
+					if n.x == "" {
+						n.x = xf
+					} else {
+						n.x = n.x + "&" + xf
+					}
+				}
+			}
+		}
+	}
 }
 
 // usedAsSize: the value read is (only) used as the size of a following CopyN/Consume
@@ -718,7 +764,7 @@ func (x *e2Ctx) pathOf(v ssa.Value, d int) string {
 					return x.pathOf(r.V, d+1)
 				}
 				if fa, ok := t.X.(*ssa.FieldAddr); ok {
-					if _, isAlloc2 := fa.X.(*ssa.Alloc); isAlloc2 {
+					if al2, isAlloc2 := fa.X.(*ssa.Alloc); isAlloc2 && !isResultObject(al2) {
 						return x.pathOf(r.V, d+1)
 					}
 				}
@@ -773,10 +819,7 @@ func (x *e2Ctx) pathOf(v ssa.Value, d int) string {
 		if isResultObject(t) {
 			return ""
 		}
-		if t.Comment != "" && t.Comment != "complit" {
-			return "%" + t.Comment
-		}
-		return "%" + types.TypeString(t.Type().(*types.Pointer).Elem(), shortQual)
+		return "%" + localAllocName(t)
 	case *ssa.ChangeType:
 		return x.pathOf(t.X, d+1)
 	case *ssa.Convert:
@@ -1297,6 +1340,13 @@ func (x *e2Ctx) dstOf(v ssa.Value) (string, string) {
 							if ex := extractOf(t, 0); ex != nil {
 								follow(item{ex, append(append([]string{}, it.xs...), "call:"+sf.Name())}, d+1)
 							}
+						} else if !inModule(sf) && !inUio(sf) && sf.Signature.Results().Len() == 1 {
+							// a library function applied to the value (ip.To4(), bytes.TrimRight(b, …)): what it
+							// returns may be (a transform of) the value read
+							rt := sf.Signature.Results().At(0).Type()
+							if bt, isB := rt.Underlying().(*types.Basic); !isErrorType(rt) && !(isB && bt.Kind() == types.Bool) {
+								follow(item{t, append(append([]string{}, it.xs...), "call:"+sf.Name())}, d+1)
+							}
 						}
 					}
 				} else if cc.IsInvoke() && strings.HasPrefix(cc.Method.Name(), "FromBytes") {
@@ -1317,7 +1367,16 @@ func (x *e2Ctx) dstOf(v ssa.Value) (string, string) {
 				}
 			case *ssa.Return:
 				if !isErrorType(it.v.Type()) {
-					addDst("return", it.xs)
+					if x.depth > 0 {
+						// inlined helper: the caller continues from the k-th result of the call
+						for k, rv := range t.Results {
+							if rv == it.v {
+								addDst(fmt.Sprintf("return#%d", k), it.xs)
+							}
+						}
+					} else {
+						addDst("return", it.xs)
+					}
 				}
 			case *ssa.IndexAddr, *ssa.Index:
 				// element access of a consumed slice (manual decode)
@@ -1716,7 +1775,7 @@ func (x *e2Ctx) resolveLocalStr(s string, n *e2Node) string {
 		parts := strings.Split(ref, ".")
 		var al *ssa.Alloc
 		allInstrs(x.fn, func(in ssa.Instruction) {
-			if a, ok := in.(*ssa.Alloc); ok && a.Comment == parts[0] {
+			if a, ok := in.(*ssa.Alloc); ok && localAllocName(a) == parts[0] {
 				al = a
 			}
 		})
@@ -1777,6 +1836,29 @@ func (x *e2Ctx) resolveLocalStr(s string, n *e2Node) string {
 		s = s[:i] + rep + s[j:]
 	}
 	return s
+}
+
+// localAllocName: the name under which a local cell appears in paths before it is resolved: its source
+// name, or for an unnamed composite literal "c<k>" (k-th alloc of the function; several temporaries of one
+// type must stay distinct)
+func localAllocName(a *ssa.Alloc) string {
+	if a.Comment != "" && a.Comment != "complit" {
+		return a.Comment
+	}
+	k := 0
+	if fn := a.Parent(); fn != nil {
+		for _, b := range fn.Blocks {
+			for _, in := range b.Instrs {
+				if x, ok := in.(*ssa.Alloc); ok {
+					if x == a {
+						return fmt.Sprintf("c%d", k)
+					}
+					k++
+				}
+			}
+		}
+	}
+	return "c"
 }
 
 func isIdentByte(c byte) bool {
